@@ -43,7 +43,7 @@ Definition show_answer (a : answer) : bytes :=
     sorted_set (map hr_text (dr_v4 r)) ++ $"/" ++ sorted_set (map hr_text (dr_v6 r)) ++ $"/" ++ enc_bool matched
   | AWeb m =>
     $"W" ++ cls_of (get_basic_result m) ++ $"/" ++
-    (match get_basic_result m with Some r => hex_encode (nr_text r) | None => $"nil" end) ++ $"/" ++ dec_of_N (get_cosmetic_option (option_map (fun b => (nr_whitelist b, nr_enabled b)) (mr_basic m)))
+    (match get_basic_result m with Some r => hex_encode (nr_text r) | None => $"nil" end) ++ $"/" ++ dec_of_N (result_cosmetic_option m)
   | ANone => $"c"
   end.
 
